@@ -216,6 +216,27 @@ class ArrayTheory:
                 elif z3.is_quantifier(t):
                     stack.append(t.body())
         index([goal])
+        # defined Bools (distinct!k, all_in!k, seq_eq!k) in the goal stand for their definitions: the path facts that
+        # define them (Skolem counter-example clauses) count as part of the goal
+        gconsts = set()
+        gstack = [goal]
+        while gstack:
+            t_ = gstack.pop()
+            if z3.is_app(t_):
+                if t_.num_args() == 0 and t_.sort() == B and t_.decl().kind() == z3.Z3_OP_UNINTERPRETED:
+                    gconsts.add(t_.get_id())
+                gstack.extend(t_.children())
+        if gconsts:
+            def mentions(f):
+                stk, n_ = [f], 0
+                while stk and n_ < 400:
+                    t_ = stk.pop(); n_ += 1
+                    if z3.is_app(t_):
+                        if t_.num_args() == 0 and t_.get_id() in gconsts:
+                            return True
+                        stk.extend(t_.children())
+                return False
+            index([p_ for p_ in work.path if mentions(p_)])
         goal_ids = set(seen)          # sub-terms of the goal: instantiation terms from here are never cut off
         index(list(work.path))
         for rnd in range(rounds):
@@ -396,6 +417,12 @@ class ArrayTheory:
 
     # ---- elementwise operators ----------------------------------------------------------
     def arr_binop(self, st, op, l, r, node):
+        if isinstance(op, ast.Mult) and isinstance(l, E.Tup) and len(l.items) == 1 and isinstance(r, E.Num) and r.is_int \
+                and isinstance(l.items[0], E.Num):
+            c = l.items[0]                      # [c] * n : n copies of c
+            st.assume(z3.Implies(r.t < 0, E.FALSE) if False else E.TRUE)
+            n_ = z3.If(r.t >= 0, r.t, 0)
+            return Arr(n_, lambda e, s, i: c, name='ones_rep' if z3.is_true(z3.simplify(c.real() == 1)) else 'rep')
         la, ra = isinstance(l, Arr), isinstance(r, Arr)
         if not (la or ra):
             return NotImplemented
@@ -560,6 +587,28 @@ class ArrayTheory:
         st.assume(z3.Implies(z3.Not(b), z3.And(sk >= 0, sk < n, z3.Not(body(self, s2, sk)))))
         return b
 
+    def all_in_term(self, st, a, b):
+        """every element of a is an element of b (defined Bool); with the pigeonhole lemma of the sequence theory:
+        a distinct and all_in(a, b)  ->  len(a) <= len(b)   (cardinality; not derivable by instantiation)."""
+        t = self.defined_bool(st, 'all_in', a.n, lambda e, s, k: e.membership(s, b, a.at(e, s, k)))
+        reg = dict(st.__dict__.get('_card', {}))
+        reg.setdefault('sub', []).append((a, b, t))
+        st._card = reg
+        for a2, d in reg.get('dist', []):
+            if a2 is a or self.arr_to_V(a2).eq(self.arr_to_V(a)):
+                st.assume(z3.Implies(z3.And(d, t), a.n <= b.n))
+        return t
+
+    def distinct_term(self, st, a):
+        d = self.defined_bool(st, 'distinct', a.n, lambda e, s, k: e.first_index(s, a, a.at(e, s, k))[0] == k)
+        reg = dict(st.__dict__.get('_card', {}))
+        reg.setdefault('dist', []).append((a, d))
+        st._card = reg
+        for a2, b2, t in reg.get('sub', []):
+            if a2 is a or self.arr_to_V(a2).eq(self.arr_to_V(a)):
+                st.assume(z3.Implies(z3.And(d, t), a.n <= b2.n))
+        return d
+
     def arr_compare(self, st, op, l, r, node):
         if isinstance(op, (ast.In, ast.NotIn)) and isinstance(r, Arr):
             t = self.membership(st, r, l)
@@ -568,7 +617,7 @@ class ArrayTheory:
             t = r.has(self, st, l)
             return t if isinstance(op, ast.In) else z3.Not(t)
         if isinstance(l, SetV) and isinstance(r, SetV):
-            sub = lambda a, b: self.defined_bool(st, 'subset', a.arr.n, lambda e, s, k: e.membership(s, b.arr, a.arr.at(e, s, k)))
+            sub = lambda a, b: self.all_in_term(st, a.arr, b.arr)
             if isinstance(op, ast.LtE):
                 return sub(l, r)
             if isinstance(op, ast.GtE):
@@ -653,8 +702,9 @@ class ArrayTheory:
                 self.add_qfact(st, lambda e, s, k: z3.Implies(z3.And(mem, k > l_, k < a0.n), z3.Not(e.val_eq(s, a0.at(e, s, k), x_))), name='last-index-maximal')
                 return E.Num(l_)
             if name == 'all_in' and len(args) == 2 and isinstance(a0, Arr) and isinstance(args[1], Arr):
-                b_ = args[1]
-                return E.BoolV(self.defined_bool(st, 'all_in', a0.n, lambda e, s, k: e.membership(s, b_, a0.at(e, s, k))))
+                return E.BoolV(self.all_in_term(st, a0, args[1]))
+            if name == 'is_distinct' and len(args) == 1 and isinstance(a0, Arr):
+                return E.BoolV(self.distinct_term(st, a0))
             if name == 'seq_equal' and len(args) == 2 and isinstance(a0, Arr) and isinstance(args[1], Arr):
                 return E.BoolV(self.seq_equal_term(st, a0, args[1]))
             if name in ('set', 'frozenset') and len(args) == 1 and isinstance(a0, Arr):
